@@ -109,6 +109,9 @@ def pval(v):
             sign, digits, exp = v.as_tuple()
             if sign == 0 and exp <= 0:
                 return {'t': 'dec', 'v': [-exp] + [48 + d for d in digits]}
+            if sign == 0 and 0 < exp <= 30:
+                # 7E+2 is the number 700: projected to its plain digits (scale 0)
+                return {'t': 'dec', 'v': [0] + [48 + d for d in digits] + [48] * exp}
         return {'t': 'x', 'v': []}
     return {'t': 'x', 'v': []}
 
@@ -310,7 +313,15 @@ def value_for(r, f, alpha):
         w = flen if ftype == 'FIXED' else 12
         digs = max(1, min(w - (1 if scale else 0) - 1, 9 if w < 30 else 37))
         n = r.choice((0, 0, r.randrange(10 ** digs), r.randrange(10 ** digs), 10 ** digs - 1))     # exact construction (scaleb would round to the context precision of 28 digits)
-        return decimal.Decimal((0, tuple(int(c) for c in str(n)), -scale))
+        d = decimal.Decimal((0, tuple(int(c) for c in str(n)), -scale))
+        k = r.random()
+        if k < 0.12 and n and scale == 0 and n % 100 == 0:
+            return decimal.Decimal((0, tuple(int(c) for c in str(n // 100)), 2))        # the same number written as xE+2
+        if k < 0.2 and w >= 12:
+            return decimal.Decimal((0, (1 + n % 9,), -(7 + n % 2)))                      # 0.000000x: str() gives xE-7
+        if k < 0.3 and n:
+            return decimal.Decimal((0, tuple(int(c) for c in str(n % 1000 or 7)), 2))    # 700 written as 7E+2
+        return d
     if proc == 'DE43':
         return rde43(r, cap)
     if proc in ('PAN', 'PAN-PREFIX'):
